@@ -346,7 +346,7 @@ SUBS = [
         "band split into at least one odd piece", quick=1500, thorough=30000, pieces_quick=4),
     Sub("perturbations", pert_case(), run_pert,
         "one piece perturbed by >= 1 sample/channel: start time, swap, overlap, gap, sample rate, chan_bw, centre frequency, class, repeated "
-        "piece; along frequency: gap/overlap/order/start/rate/repeat; along a trailing axis: start/labels/rate -> must raise; every case "
+        "piece, the same NUMBER in another unit for sample_rate / chan_bw (must raise), the same rate written in another unit (must be accepted); along frequency: gap/overlap/order/start/rate/repeat; along a trailing axis: start/labels/rate -> must raise; every case "
         "non-trivial", quick=1500, thorough=30000, pieces_quick=4),
     Sub("misc", G.signal_spec(nmin=1, nmax=8, nchan_max=3, max_trailing=1), run_misc, "empty list, non-signals, 'freq' on plain signals, single "
         "signal", quick=60, thorough=600, pieces_quick=1),
